@@ -49,7 +49,7 @@ SHARDS_THOROUGH = 16
 
 #: triggers of the defects that abort hint computation: excluded by construction from ``clean``, as is every statement in
 #: which some table scan is offered only factors that a known defect makes unsafe (vf.dslx.shapes.scan_factor_causes)
-FUZZY_TRIGGERS = ('bool-leaf-pred',)  # factors-asym and mixed-table-ref are repaired
+FUZZY_TRIGGERS = ()  # factors-asym and mixed-table-ref are repaired
 _EXCLUDED = {}
 _PARSE_ATTRIBUTION = [
     ('AttributeError', 'io/dsl/_struct/series.py:__call__', 'factors-asym'),
